@@ -64,4 +64,55 @@ mutual
         | none => simp only [Option.none_or]; exact findR_eq env req rest
 end
 
+
+theorem tryEntry_some_iff (env : Env) (req : Req) (e : Entry) (x : Hit) :
+    tryEntry env req e = some x ↔
+      (∀ m ∈ e.chain, (matchM env req m).isSome = true) ∧ x.h = e.h ∧ x.kw = e.kw ∧
+        matchM env req e.last = some x.args := by
+  unfold tryEntry
+  by_cases hall : e.chain.all (accepts env req) = true
+  · have hall' : ∀ m ∈ e.chain, (matchM env req m).isSome = true := by
+      simpa [List.all_eq_true, accepts] using hall
+    simp only [hall, if_true, Option.map_eq_some_iff]
+    constructor
+    · rintro ⟨args, hm, rfl⟩
+      exact ⟨hall', rfl, rfl, hm⟩
+    · rintro ⟨_, hh, hk, hm⟩
+      refine ⟨x.args, hm, ?_⟩
+      cases x; simp_all
+  · have : ¬ ∀ m ∈ e.chain, (matchM env req m).isSome = true := by
+      simpa [List.all_eq_true, accepts] using hall
+    simp [hall, this]
+
+theorem matchM_path_iff (env : Env) (req : Req) (p : Str) (args : List (Option Bytes)) :
+    matchM env req (.path p) = some args ↔
+      ∃ gs, env.m (normDollar p) req.path = some gs ∧ args = gs.map (fun g => g.map unquote) := by
+  simp only [matchM, Option.map_eq_some_iff]
+  constructor
+  · rintro ⟨gs, h, rfl⟩; exact ⟨gs, h, rfl⟩
+  · rintro ⟨gs, h, rfl⟩; exact ⟨gs, h, rfl⟩
+
+mutual
+  theorem leavesT_last (m : Matcher) (kw : Option Nat) :
+      (t : Target) → ∀ e ∈ leavesT m kw t, e.chain.getLast? = some e.last
+    | .handler h => by simp [leavesT]
+    | .router rs => by
+      intro e he
+      simp only [leavesT, List.mem_map] at he
+      obtain ⟨e', he', rfl⟩ := he
+      have := flatten_last rs e' he'
+      cases hc : e'.chain with
+      | nil => simp [hc] at this
+      | cons a r => simp only [hc] at this ⊢; rw [List.getLast?_cons_cons]; exact this
+    | .inert => by simp [leavesT]
+  theorem flatten_last : (rules : Rules) → ∀ e ∈ flatten rules, e.chain.getLast? = some e.last
+    | .nil => by simp [flatten]
+    | .cons m t kw n rest => by
+      intro e he
+      simp only [flatten, List.mem_append] at he
+      cases he with
+      | inl h => exact leavesT_last m kw t e h
+      | inr h => exact flatten_last rest e h
+end
+
 end TornadoModel.C31
